@@ -3,7 +3,7 @@
 
 Cases are typed:
   {"k": "yt", "url": u}   parse_youtube_url (fix_common_mistakes True and False), normalize_youtube_url,
-                          extract_video_id_from_youtube_url, is_youtube_url + the five youtube regexes on u
+                          extract_video_id_from_youtube_url, is_youtube_url + the six youtube regexes on u
   {"k": "id", "s": s}     is_youtube_video_id / is_youtube_channel_id
   {"k": "g",  "url": u}   is_amp_url, is_google_link, extract_url_from_google_link, parse_google_drive_url
                           (+ .url, .get_export_url), extract_id_from_google_drive_url + the three google regexes
@@ -23,16 +23,15 @@ THEOREMS = [
     _Y + "record_valid",
     _Y + "extract_video_id_valid",
     _Y + "record_fields",
-    _Y + "good_of_residual",
-    _Y + "reparse_url_partial",
-    _Y + "reparse_short",
-    _Y + "reparse_video_without_playlist",
-    _Y + "fullReparse_false",
+    _Y + "record_names_no_continuation",
+    _Y + "reparse_url",
+    _Y + "reparse_url_module",
     _Y + "normalize_unparsed_fixed",
-    _Y + "normalize_youtube_idempotent_partial",
-    _Y + "fullIdempotent_false",
+    _Y + "normalize_youtube_idempotent",
+    _Y + "normalize_youtube_idempotent_module",
     _Y + "parse_eq_fuel",
     "Ural.Youtube.reparse_of_good",
+    "Ural.Youtube.good_of_fields",
     # ural/google.py
     _G + "parse_google_drive_url_total",
     _G + "extract_id_from_google_drive_url_total",
@@ -44,6 +43,7 @@ THEOREMS = [
 ]
 TABLE_OBLIGATIONS = [
     _Y + "youtube_patterns_unchanged",
+    _Y + "youtube_stops_are_pattern_classes",
     _Y + "youtube_templates_unchanged",
     _Y + "roundtrip_obligations",
     _Y + "youtube_domains_ordinary",
@@ -54,25 +54,30 @@ TABLE_OBLIGATIONS = [
     _G + "drive_types_plain",
 ]
 RULE = (
-    "yt: corpus (every fixed C19 finding of youtube.py/google.py, incl. the four repaired on this part's report, + the witnesses of the known findings KF-C19-YT-4/5), then every path of 0-3 "
-    "(quick) / 0-4 + sampled 5 (thorough) segments over the route vocabulary {watch, embed, v, video, shorts, channel, user, c, "
-    "playlist, feed, results, about, t} and id-like (11 chars), too-long (12), too-short (5), channel-id-like (UC+22), handle-like "
-    "(@x, x, @, @@x, @watch), empty, blank, trailing-blank, '&'/'%'/non-ASCII segments, with and without a trailing slash on "
-    "youtube.com; paths of 0-2 segments x 14 hosts (youtube/mobile/country/music/youtu.be/yt.be/kids/look-alikes/non-platform/"
-    "upper case) x 4 scheme forms; 13 route paths x 4 hosts x 0-2 (0-3 on /watch; thorough: 0-3 everywhere) ordered query items "
+    "yt: corpus (every fixed C19 finding of youtube.py/google.py, incl. the witnesses of FX-C19-7adbc32 / FX-C19-319af34 (formerly KF-C19-YT-4/5) and the "
+    "cache host hidden behind a TAB inside a playlist id), then every path of 0-2 segments over the 31-segment vocabulary {watch, embed, v, video, "
+    "shorts, channel, user, c, playlist, feed, results, about, t} + id-like (11 chars), too-long (12), too-short (5), channel-id-like (UC+22), "
+    "handle-like (@x, x, @, @@x, @watch), empty, blank, trailing-blank, '&'/'%'/non-ASCII/TAB-inside-a-continuation-pattern segments, and every "
+    "3-segment path over its 22-segment core (route words, id-like, too long, too short, channel-id-like, @handle, handle, @, empty, trailing blank) "
+    "(thorough: 0-4 segments over all 31 + sampled 5), with and without a trailing slash on youtube.com; paths of 0-1 segments (all 31) and 2 segments "
+    "(core) (thorough: 0-2 over all 31) x 14 hosts (youtube/mobile/country/music/youtu.be/yt.be/kids/look-alikes/non-platform/upper case) x 4 scheme "
+    "forms; 13 route paths x 4 hosts x 0-2 (0-3 on /watch; thorough: 0-3 everywhere) ordered query items "
     "over {v, V, list, next, feature, q, u, url, t, bare v, &amp;v} values {id, short id, long id, playlist, empty, redirect-hint}; "
-    "x 6 fragment forms (#/watch?v=…, #%2Fwatch%3Fv%3D…, #!/…, plain); non-platform strings; then seeded random mixes of all of "
+    "x 7 fragment forms (#/watch?v=…, #%2Fwatch%3Fv%3D…, #!/…, plain); non-platform strings; then seeded random mixes of all of "
     "these. id: strings of length 0-13/22-25 around the two validators incl. trailing newline and non-class characters. "
     "g: docs.google.com / google.* / ampproject / amp.* / non-platform hosts x every path of 0-3 (quick) / 0-4 (thorough) "
     "segments over {document, spreadsheets, presentation, forms, d, e, pub, edit, url, amp, x.amp, x.amp.html, id-like, empty, "
-    "blank, trailing-blank} x 10 query forms (url=…, amp_x=…, …). Non-trivial = yt: parse_youtube_url returns a record, or the url "
-    "is on a youtube host; id: length within 2 of the validator's; g: a function returns a record / True / a string. Distinct = distinct case."
+    "blank, trailing-blank} x 10 query forms (url=…, amp_x=…, …). Every yt case runs both values of fix_common_mistakes. Non-trivial = yt: "
+    "parse_youtube_url returns a record, or the url is on a youtube host; id: length within 2 of the validator's; g: a function returns a record / "
+    "True / a string. Distinct = distinct case."
 )
 EXHAUSTIVE = {
-    "quick": "yt: all paths of 0-3 segments over a 31-segment vocabulary x trailing slash on youtube.com; all paths of 0-2 segments x 14 hosts x 4 scheme forms; "
-    "13 route paths x 4 hosts x all ordered 0-2 query items over 17 items (0-3 on youtube.com/watch) ; x 6 fragments. "
+    "quick": "yt: all paths of 0-2 segments over a 31-segment vocabulary and all 3-segment paths over its 22-segment core x trailing slash on youtube.com; "
+    "all paths of 0-1 segments (31) and 2 segments (core) x 14 hosts x 4 scheme forms; "
+    "13 route paths x 4 hosts x all ordered 0-2 query items over 17 items (0-3 on youtube.com/watch) ; x 7 fragments. "
     "g: all paths of 0-3 segments over a 17-segment vocabulary x trailing slash on docs.google.com; 0-2 segments x 9 hosts x 10 queries",
-    "thorough": "as quick, with paths of 0-4 segments (5 segments sampled), 0-3 query items on every route path, g: paths of 0-4 segments",
+    "thorough": "yt: all paths of 0-4 segments over the 31-segment vocabulary (5 segments sampled) x trailing slash; 0-2 segments x 14 hosts x 4 scheme forms; "
+    "0-3 query items on every route path; g: paths of 0-4 segments",
 }
 TRUSTED = [
     "Lean 4 kernel; axioms of every listed theorem audited to be within {propext, Classical.choice, Quot.sound}",
@@ -93,16 +98,12 @@ ASSUMPTIONS = [
     "True, as normalize_youtube_url calls the parser), record.url for google drive",
 ]
 UNPROVED = (
-    "youtube: parse(canonical url of r) == r is proved on the region Residual (reparse_url_partial): names / channel ids without '%', playlist "
-    "ids without '/' and '%' - everything else the proof needs (no '/', '?', '#', '&', TAB/CR/LF, no blank at either end of a user name / "
-    "channel id, channel name not reserved and without leading '@', non-empty playlist id without '&', '#', '?') is PROVED to be guaranteed "
-    "by the parser as repaired (record_fields, record_valid); full for shorts and videos without playlist. Outside Residual the statement is "
-    "FALSE (fullReparse_false, fullIdempotent_false): '%' in a name = KF-C19-YT-4 (a continuation pattern hidden from the regexes by a "
-    "TAB/CR/LF that urlsplit removes), '%' in a playlist id = KF-C19-YT-5 (two continuation patterns); '/' inside a playlist id is only a "
-    "limit of the proof (explored by the oracle on every run, no failure known). normalize_youtube_url idempotent: full on urls that do not "
-    "parse, on Residual otherwise. google: reparse_url FULL for both record types. is_youtube_url / is_amp_url / is_google_link / "
-    "extract_url_from_google_link / is_youtube_*_id: no raise site in the model (total by construction), their agreement with the code is "
-    "differential only."
+    "youtube: nothing of the property is left unproved on the model: totality, validators, parse(canonical url of r) == r (reparse_url, "
+    "reparse_url_module) and normalize_youtube_url idempotence (normalize_youtube_idempotent, _module) hold for every string; the only hypothesis of the "
+    "generic forms is that the domain trie (a parameter) knows www.youtube.com, proved for the module's trie (youtube_trie_knows_www). google: reparse_url "
+    "FULL for both record types. is_youtube_url / is_amp_url / is_google_link / extract_url_from_google_link / is_youtube_*_id: no raise site in the model "
+    "(total by construction), their agreement with the code is differential only. Records obtained with fix_common_mistakes=False are only required to be "
+    "well formed (the canonical url is what normalize_youtube_url builds, with the default True)."
 )
 
 ID = "dQw4w9WgXcQ"
@@ -117,6 +118,9 @@ YT_SEGS = [
     "watch", "embed", "v", "video", "shorts", "channel", "user", "c", "playlist", "feed", "results", "about", "t",
     ID, ID + "x", "short", CID, "@handle", "handle", "@", "@@h", "@watch", "", " ", "x ", "a&b", "a%20b", "é日", "&x", "x&u=%2Fy", "ne\txt=%2Fwatch%3Fv%3D" + ID2,
 ]
+# the core of the vocabulary (route words, id-like, too long, too short, channel-id-like, handle-like, empty, trailing blank): the
+# quick tier enumerates 3-segment paths and the host x scheme grid over it; paths of 0-2 segments always range over all of YT_SEGS
+YT_CORE = YT_SEGS[:13] + [ID, ID + "x", "short", CID, "@handle", "handle", "@", "", "x "]
 YT_HOSTS = [
     "youtube.com", "www.youtube.com", "m.youtube.com", "youtube.fr", "youtube.co.uk", "music.youtube.com", "youtu.be", "www.youtu.be",
     "yt.be", "youtubekids.com", "notyoutube.com", "youtube.com.evil.org", "a.com", "YouTube.COM",
@@ -131,7 +135,7 @@ YT_QITEMS = [
     "url=http%3A%2F%2Fyoutu.be%2F" + ID, "next=%2Fwatch%3Fv%3D" + ID, "t=1", "v", "amp;v=" + ID,
     "list=next=%2Fwatch%3Fv%3D" + ID2, "x=next%3D%252Fwatch%253Fv%253DAAAAAAAAAAA",
 ]
-YT_FRAGS = ["", "#f", "#/watch?v=" + ID, "#%2Fwatch%3Fv%3D" + ID2, "#!/watch?v=" + ID, "#/watch?v=short"]
+YT_FRAGS = ["", "#f", "#/watch?v=" + ID, "#%2Fwatch%3Fv%3D" + ID2, "#!/watch?v=" + ID, "#/watch?v=short", "#/watch?v=\u017f" + ID[1:]]
 NON_PLATFORM = [
     "", " ", "x", "/", "//", "?", "#", "://", "http://", "https://", "[", "]", "http://[", "http://[x", "http://x]", "http://[::1]/watch?v=" + ID,
     "a.com", "a.com/watch?v=" + ID, "mailto:a@b.c", "javascript:void(0)", "not a url", "\t\n", "%", "é", "日本語", "youtube", "youtube.", ".youtube.com",
@@ -158,12 +162,18 @@ CORPUS_YT = [
     "youtube.com/user/x /", "youtube.com/channel/x /", "youtube.com/user/ /", "youtube.com/channel/ /", "youtube.com/user/x\x1f/y",  # FX-C19-d47b8e8 trailing blank
     "https://www.youtube.com/watch?v=" + ID + "&q=zzz&list=a?u=http://x.com/", "youtu.be/" + ID + "?u=abc&list=PL?url=http://x.com/",  # FX-C19-569f4b6
     "q=1@youtube.com/user/a&u=%2Fx", "q=1@youtube.com/channel/a&u=%2Fx", "q=1@youtube.com/c/a&u=%2Fx", "q=1@youtube.com/a&u=%2Fx",  # FX-C19-716cf1e
-    # witnesses of the known finding KF-C19-YT-4 (TAB / CR / LF inside a continuation pattern held by a name)
+    # FX-C19-7adbc32 (formerly known finding KF-C19-YT-4): TAB / CR / LF inside a continuation pattern held by a name
     "youtube.com/user/ne\txt=%2Fwatch%3Fv%3D" + ID, "youtube.com/ne\rxt%3D%252Fwatch%253Fv%253D" + ID, "youtube.com/channel/ne\nxt=%2Fwatch%3Fv%3Dshort",
     "youtube.com/c/next=%2\tFwatch%3Fv%3D" + ID2, "https://www.google.com/url?q=https%3A%2F%2Fyoutube.com%2Fne%09xt%3D%252Fwatch%253Fv%253D" + ID2, "youtube.com/watch?v=" + ID + "&list=a\tb", "youtube.com/user/x\ty",
-    # witnesses of the known finding KF-C19-YT-5 (a continuation pattern inside the playlist id competes with another one)
+    # FX-C19-319af34 (formerly known finding KF-C19-YT-5): a continuation pattern inside the playlist id competes with another one
     "youtube.com/next=%2Fwatch%3Fv%3DAAAAAAAAAAA?list=next=%2Fwatch%3Fv%3DBBBBBBBBBBB", "youtube.com/watch?v=AAAAAAAAAAA&x=next%3D%252Fwatch%253Fv%253D" + ID + "&list=next=%2Fwatch%3Fv%3D" + ID2,
     "youtu.be/AAAAAAAAAAA?list=next=%2Fwatch%3Fv%3DBBBBBBBBBBB", "youtube.com/watch?v=AAAAAAAAAAA&list=PL%20x", "youtube.com/watch?v=AAAAAAAAAAA&list=a/b/.ampproject.org/c/",
+    # a cache host of infer_redirection hidden behind a TAB / %09 inside the playlist id (why a playlist id stops at '/')
+    "youtube.com/watch?v=" + ID + "&list=bc.marfeel.co\tm/x", "http://a.com/?url=http://youtube.com/watch?v=" + ID + "%26list=bc.marfeel.co%09m/x",
+    "youtu.be/" + ID + "?list=cdn.ampproject.or\ng/c/s/x.com", "youtube.com/watch?v=" + ID + "&list=PL1/", "youtube.com/watch?v=" + ID + "&list=/",
+    # FRAGMENT_V_RE is compiled with re.I: its class also matches U+0130, U+0131, U+017F, U+212A, which the validator refuses
+    "youtube.com/#/watch?v=\u017f" + ID[1:], "youtube.com/x#%2Fwatch%3Fv%3D" + ID[:5] + "\u212a" + ID[6:], "https://m.youtube.com/#/WATCH?V=\u0131" + ID[1:],
+    "youtube.com/#/watch?v=" + ID[:10] + "\u0130",
     "youtube.com/user/x&feature=share", "youtube.com/@x&t=1", "youtube.com/user/&x", "youtube.com/watch&v=" + ID, "youtube.com/c/@&@x",
 ]
 G_SEGS = ["document", "spreadsheets", "presentation", "forms", "d", "e", "pub", "edit", "url", "amp", "x.amp", "x.amp.html", "1BxiMVs0XRA5nFMd", "", " ", "x ", "é"]
@@ -255,16 +265,25 @@ def cases(rng, tier):
         yield {"k": "id", "s": s}
 
     # ---- youtube: every path over the route vocabulary
-    for p in _paths(YT_SEGS, 4 if thorough else 3):
+    for p in _paths(YT_SEGS, 4 if thorough else 2):
         yield _yt("youtube.com/" + p)
         yield _yt("youtube.com/" + p + "/")
     if thorough:
         for _ in range(150000):
             yield _yt("https://www.youtube.com/" + "/".join(rng.choice(YT_SEGS) for _ in range(5)) + rng.choice(["", "/"]))
-    for p in _paths(YT_SEGS, 2):
+    else:
+        for t in itertools.product(YT_CORE, repeat=3):
+            yield _yt("youtube.com/" + "/".join(t))
+            yield _yt("youtube.com/" + "/".join(t) + "/")
+    for p in _paths(YT_SEGS, 2 if thorough else 1):
         for h in YT_HOSTS:
             for s in SCHEMES:
                 yield _yt(s + h + "/" + p)
+    if not thorough:
+        for t in itertools.product(YT_CORE, repeat=2):
+            for h in YT_HOSTS:
+                for s in SCHEMES:
+                    yield _yt(s + h + "/" + "/".join(t))
     # ---- x query items
     for p in YT_ROUTE_PATHS:
         for h in YT_QHOSTS:
@@ -290,7 +309,7 @@ def cases(rng, tier):
                     yield _g(h + "/" + p)
 
     # ---- seeded random
-    n = 25000 if not thorough else 600000
+    n = 25000 if not thorough else 400000
     for _ in range(n):
         r = rng.random()
         if r < 0.6:
@@ -308,7 +327,7 @@ def cases(rng, tier):
 # --------------------------------------------------------------------------------------
 # model lines / implementation
 # --------------------------------------------------------------------------------------
-YT_RES = ["query_v", "query_list", "next_v", "nested_next_v", "fragment_v"]
+YT_RES = ["query_v", "query_list", "next_v", "nested_next_v", "fragment_v", "unsafe_url_chars"]
 G_RES = ["amp_query", "amp_suffixes", "url_extract"]
 
 
@@ -417,6 +436,7 @@ def impl(case):
             _group(y.NEXT_V_RE.search(u)),
             _group(y.NESTED_NEXT_V_RE.search(u)),
             _group(y.FRAGMENT_V_RE.match(u)),
+            y.UNSAFE_URL_CHARS_RE.sub("", u) if hasattr(y, "UNSAFE_URL_CHARS_RE") else {"missing": "UNSAFE_URL_CHARS_RE"},
         ]
     if k == "id":
         return [gd(y.is_youtube_video_id, case["s"]), gd(y.is_youtube_channel_id, case["s"])]
@@ -561,41 +581,6 @@ def oracle(case):
     if k == "g":
         return _oracle_g(case["url"])
     return None
-
-
-# --------------------------------------------------------------------------------------
-# known findings of this part (KNOWN_FINDINGS.json): each predicate recognises exactly one class
-# --------------------------------------------------------------------------------------
-def kf_yt_continuation_pattern_behind_tab(case, failure):
-    """'youtube.com/user/ne<TAB>xt=%2Fwatch%3Fv%3D<id>': NEXT_V_RE / NESTED_NEXT_V_RE are searched in the raw url, where the TAB
-    (CR, LF) hides the pattern; urlsplit removes the TAB, so the user / channel name holds the pattern, and so does the canonical
-    url, which then parses to a video (or None).  Exactly: a round-trip failure whose record is a user / channel with a field
-    in which one of the two continuation patterns matches."""
-    from ural import youtube as y
-
-    if case.get("k") != "yt" or not (failure.startswith("reparse:") or failure.startswith("idempotence:")):
-        return False
-    p = _safe(y.parse_youtube_url, case["url"])
-    if isinstance(p, y.YoutubeUser):
-        f = p.name
-    elif isinstance(p, y.YoutubeChannel):
-        f = p.id if p.id is not None else p.name
-    else:
-        return False
-    return bool(y.NEXT_V_RE.search(f) or y.NESTED_NEXT_V_RE.search(f))
-
-
-def kf_yt_continuation_pattern_in_playlist(case, failure):
-    """'youtube.com/next=%2Fwatch%3Fv%3D<A>?list=next=%2Fwatch%3Fv%3D<B>': the video id is taken from the LEFTMOST continuation
-    pattern (or from NEXT_V_RE before NESTED_NEXT_V_RE), the playlist id holds another one; in the canonical url
-    '…watch?v=<A>&list=next=%2Fwatch%3Fv%3D<B>' the only pattern left is the one inside the playlist id: it parses to the video <B>.
-    Exactly: a round-trip failure whose record is a video with a playlist id in which a continuation pattern matches."""
-    from ural import youtube as y
-
-    if case.get("k") != "yt" or not (failure.startswith("reparse:") or failure.startswith("idempotence:")):
-        return False
-    p = _safe(y.parse_youtube_url, case["url"])
-    return isinstance(p, y.YoutubeVideo) and bool(p.playlist) and bool(y.NEXT_V_RE.search(p.playlist) or y.NESTED_NEXT_V_RE.search(p.playlist))
 
 
 # --------------------------------------------------------------------------------------
